@@ -4,7 +4,7 @@ CHECK = {
     "technique": E2_TECHNIQUE + "; the real code runs under the E3 cooperative scheduler so that quiescence after each "
                  "event is an exact fact",
     "level": "fault_enumeration",
-    "level_text": "Every number of services 0..4 x every outcome vector over {nil, error, panic} x every signal "
+    "level_text": "Every number of services 0..4 x every outcome vector over {nil, error, panic, context becomes done} x every signal "
                   "sequence of length <=3 over {HUP, USR1, INT, QUIT, TERM} is delivered to the real SignalHandler "
                   "through a fake notifier; every tick / refresh-outcome / shutdown sequence is delivered to the real "
                   "RefreshWorker under an injected clock and schedule. Each event runs to quiescence and the full "
@@ -15,7 +15,7 @@ CHECK = {
                   "service/signal.go and service/refreshworker.go.",
     "rule": "one evaluation = one event sequence executed on the real code to quiescence; distinct_nontrivial = "
             "distinct (scenario, observed call log) pairs; all scenarios of the stated bounds are enumerated",
-    "bounds_quick": "services 0..4 x 3^n outcomes x signal sequences <=3; ticks 0..4 x outcomes x shutdown yes/no x "
+    "bounds_quick": "services 0..4 x 4^n outcomes x signal sequences <=3 (also with the context given to Handle already done); ticks 0..4 x outcomes x shutdown yes/no x "
                     "RefreshOnShutdown x final outcome x 0..2 ticks after shutdown",
     "bounds_thorough": "services 0..5, signal sequences <=4, ticks 0..6, plus every single scheduler alternative "
                        "(preemption bound 1)",
